@@ -1,5 +1,5 @@
 """Level texts for MANIFEST.json."""
-HOOK_COMMITS = ["645c65a", "e34ba59", "f51c5d9"]
+HOOK_COMMITS = ["645c65a", "e34ba59", "f51c5d9", "f6ed18e"]
 NOT_APPLICABLE = {}
 LEVELS = {
     "C19": {
